@@ -444,3 +444,19 @@ Proof.
     destruct (pick_leaf true df) as [a|] eqn:E; [|discriminate].
     rewrite (pick_leaf_mono _ _ E). exact H.
 Qed.
+
+(* ---------------------------------------------------------------- verbatim windows roots *)
+Lemma verbatim_push_appends : forall comps buf, Forall (fun c => c <> dotdot) comps ->
+  exists t, verbatim_push buf comps = buf ++ t /\ Forall (fun c => c <> dotdot /\ c <> [] /\ c <> [46]) t.
+Proof.
+  induction comps as [|c r IH]; intros buf H.
+  - exists []. split; [cbn; rewrite app_nil_r; reflexivity | constructor].
+  - apply Forall_cons_iff in H. destruct H as [Hc Hr]. cbn [verbatim_push].
+    destruct ((match c with [] => true | _ => false end) || str_eqb c [46]) eqn:E1.
+    + exact (IH buf Hr).
+    + apply orb_false_iff in E1. destruct E1 as [E1 E2].
+      apply str_eqb_false in Hc. rewrite Hc. destruct (IH (buf ++ [c]) Hr) as [t [Ht Ft]].
+      exists (c :: t). split; [rewrite Ht, <- app_assoc; reflexivity|].
+      constructor; [|exact Ft]. split; [apply str_eqb_false; exact Hc|].
+      split; [intro; subst c; discriminate | apply str_eqb_false; exact E2].
+Qed.
